@@ -217,8 +217,14 @@ func (s *Log) Nice(o TickOptions) {
 		return
 	}
 	firstN, lastN, base := s.spacingAtLevel(level, true)
-	s.Min = math.Pow(base, firstN)
-	s.Max = math.Pow(base, lastN)
+	min, max := math.Pow(base, firstN), math.Pow(base, lastN)
+	if !(0 < min && min < max) || math.IsInf(max, 0) {
+		// The effective base at this level overflowed (this
+		// happens when o.Max is too small to be satisfied).
+		// Leave the domain alone rather than collapsing it.
+		return
+	}
+	s.Min, s.Max = min, max
 	if neg {
 		s.Min, s.Max = -s.Max, -s.Min
 	}
